@@ -22,13 +22,18 @@ Definition fr_s1 : N := lit lits_fastReduction 1.       (* vnplo >> 32 *)
 Definition fr_s2 : N := lit lits_fastReduction 2.       (* (...) >> 32 *)
 Definition fr_s3 : N := lit lits_fastReduction 3.       (* vnpmid >> 32 *)
 Definition fr_s4 : N := lit lits_fastReduction 4.       (* npvmid >> 32 *)
+Definition build_nbase : N := lit lits_BuildGCSFilter 0.  (* the 1 of len(data) >= 1 << 32 *)
 Definition build_nbits : N := lit lits_BuildGCSFilter 1.  (* len(data) >= 1 << 32 *)
 Definition build_pmax : N := lit lits_BuildGCSFilter 2.   (* P > 32 *)
+Definition build_empty : N := lit lits_BuildGCSFilter 3.  (* f.n == 0 *)
 Definition build_hshift : N := lit lits_BuildGCSFilter 6. (* modulusNP >> 32 *)
 Definition frombytes_pmax : N := lit lits_FromBytes 0.    (* P > 32 *)
+Definition fromn_nbase : N := lit lits_FromNBytes 0.      (* the 1 of N >= 1 << 32 *)
 Definition fromn_nbits : N := lit lits_FromNBytes 1.      (* N >= 1 << 32 *)
 Definition match_hshift : N := lit lits_Filter_Match 0.
+Definition match_i0 : N := lit lits_Filter_Match 1.       (* for i := uint32(0); i < f.N() *)
 Definition zip_hshift : N := lit lits_Filter_ZipMatchAny 2.
+Definition zip_i0 : N := lit lits_Filter_ZipMatchAny 3.   (* for i := uint32(0); i < f.N() *)
 Definition hash_hshift : N := lit lits_Filter_HashMatchAny 1.
 Definition any_div : N := lit lits_Filter_MatchAny 0.     (* f.N() / 2 *)
 Definition hint_mul : N := lit lits_Filter_sizeHint 0.    (* len * 8 *)
@@ -131,7 +136,8 @@ Definition filter_eqb (a b : filter) : bool :=
 Definition reduce_with (shift : N) (f : filter) (v : N) : N :=
   fast_reduction v (N.shiftr (f_mod f) shift) (lo32 (f_mod f)).
 
-(* Match: the loop `for i < N` is written with the number of iterations left;
+(* Match: the loop `for i := i0; i < N; i++` is written with the number of iterations left
+   (N - i0, truncated subtraction: no iteration when N <= i0);
    fuel is the termination measure (every iteration consumes at least one bit) *)
 Fixpoint match_loop (fuel : nat) (P left : N) (bs : list bool) (value term : N) : res bool :=
   match fuel with
@@ -233,7 +239,7 @@ Definition from_bytes (n P M : N) (d : list N) : res filter :=
 
 Definition from_nbytes (P M : N) (d : list N) : res filter :=
   do (n, rest) <- read_varint d ;;
-  if N.shiftl 1 fromn_nbits <=? n then Err 1
+  if N.shiftl fromn_nbase fromn_nbits <=? n then Err 1
   else from_bytes n P M rest.           (* uint32(N) = N below 2^32 *)
 
 Section WithDeps.
@@ -243,12 +249,12 @@ Section WithDeps.
   (* BuildGCSFilter *)
   Definition build (P M : N) (key : list N) (data : list (list N)) : res filter :=
     let len := N.of_nat (length data) in
-    if N.shiftl 1 build_nbits <=? len then Err 1
+    if N.shiftl build_nbase build_nbits <=? len then Err 1
     else if build_pmax <? P then Err 2
     else
       let n := len in
       let modnp := w64 (n * M) in
-      if n =? 0 then Ok (mkFilter n P modnp [])
+      if n =? build_empty then Ok (mkFilter n P modnp [])
       else
         let nphi := N.shiftr modnp build_hshift in
         let nplo := lo32 modnp in
@@ -256,7 +262,7 @@ Section WithDeps.
         Ok (mkFilter n P modnp (pack (encode P 0 values))).
 
   Definition gmatch (f : filter) (key d : list N) : res bool :=
-    match_loop (fuel_of f) (f_p f) (f_n f) (bits_of_bytes (f_data f)) 0
+    match_loop (fuel_of f) (f_p f) (f_n f - match_i0) (bits_of_bytes (f_data f)) 0
                (reduce_with match_hshift f (hash key d)).
 
   Definition zip_match_any (f : filter) (key : list N) (data : list (list N)) : res bool :=
@@ -264,7 +270,7 @@ Section WithDeps.
     | [] => Ok false
     | _ =>
         let values := sort (map (fun d => reduce_with zip_hshift f (hash key d)) data) in
-        zip_loop (fuel_of f) (f_p f) (f_n f) (bits_of_bytes (f_data f)) 0 values
+        zip_loop (fuel_of f) (f_p f) (f_n f - zip_i0) (bits_of_bytes (f_data f)) 0 values
     end.
 
   Definition hash_match_any (f : filter) (key : list N) (data : list (list N)) : res bool :=
